@@ -176,6 +176,18 @@ def run_dask(case, stt, sched=None):
     try:
         r_da = op.run(pb, z_da, copy.deepcopy(args))
         built = COUNTER["n"]
+        if isinstance(r_da, pb.Signal) and r_da is not z_da and isinstance(r_da.data, da.Array) and len(str(case)) % 2:
+            # the lazy result describes the input AS IT WAS when the operation was called: re-labelling the input object afterwards (before
+            # anything is computed) must not change what the result computes to
+            if isinstance(z_da, pb.RadioSignal):
+                z_da.center_freq = z_da.center_freq * 1.25 + 3 * z_da.chan_bw
+                z_da.freq_align = "top" if z_da.freq_align != "top" else "bottom"
+            if not isinstance(z_da, pb.BasebandSignal):
+                z_da.sample_rate = z_da.sample_rate * 3
+            z_da.start_time = None if z_da.start_time is not None else G.mk_time({"mjd": 59000, "frac": 0.125})
+            if isinstance(z_da, pb.DualPolarizationSignal):
+                z_da.pol_type = "circular" if z_da.pol_type == "linear" else "linear"
+            stt.label("input_relabelled_before_compute")
         if isinstance(r_da, pb.Signal) and isinstance(r_da.data, da.Array):
             arr(r_da.data, "synchronous")
     except Exception as e:
@@ -286,7 +298,7 @@ def run_joint(case, stt):
 # -- library calls as concurrent tasks of the threaded scheduler ----------------------------------------------------------------
 
 THREAD_OPS = ["freq_shift", "time_shift", "coherent_dedispersion", "incoherent_dedispersion", "to_stokes", "to_circular", "ufunc_expr", "snippet", "stft",
-              "labels", "real_to_complex", "phase_strings"]
+              "labels", "real_to_complex", "phase_strings", "fast_len_calls"]
 
 
 def _labels_task(z, rounds):
@@ -304,7 +316,7 @@ def _labels_task(z, rounds):
 def threads_case(draw):
     name = draw(st.sampled_from(THREAD_OPS))
     classes = ["RadioSignal", "BasebandSignal", "IntensitySignal"] if name == "labels" else OP_CLASSES.get(name, ["Signal", "BasebandSignal"])
-    if name in ("real_to_complex", "phase_strings"):
+    if name in ("real_to_complex", "phase_strings", "fast_len_calls"):
         classes = ["Signal"]
     n = draw(st.sampled_from([4096, 8192, 3001])) if name != "labels" else 4
     spec = draw(G.signal_spec(classes=classes, nmin=n, nmax=n, nchan_max=4, max_trailing=0, dtypes=["f4", "f8", "c8", "c16"], positive_band=True,
@@ -317,7 +329,13 @@ def threads_case(draw):
     k = draw(st.integers(4, 8))
     calls = []
     for i in range(k):
-        args = None if name in ("labels", "real_to_complex", "phase_strings") else C.OPS[name].args(draw, info)
+        if name == "fast_len_calls":
+            # lengths asked for by one thread: mostly modest ones, one far beyond anything seen before in the process
+            args = [draw(st.integers(11, 10**5)) for _ in range(4)] + [draw(st.integers(2**40, 2**61))] + [draw(st.integers(11, 10**4)) for _ in range(3)]
+            if draw(st.booleans()):
+                args = args[4:5] + args[:4] + args[5:]
+        else:
+            args = None if name in ("labels", "real_to_complex", "phase_strings") else C.OPS[name].args(draw, info)
         calls.append({"args": args, "seed": draw(st.integers(0, 10**6)), "align": draw(st.sampled_from(["bottom", "center", "top"]))})
     return {"sig": spec, "op": name, "calls": calls}
 
@@ -337,7 +355,23 @@ def run_threads(case, stt):
             sp["align"] = c["align"]
         sigs.append(G.build(sp))
 
-    if name == "real_to_complex":
+    fresh = None
+    if name == "fast_len_calls":
+        import importlib
+        import pulsarbat.utils as U0
+
+        state = {"U": U0}
+
+        def fresh():
+            state["U"] = importlib.reload(U0)  # empty tables / caches before every round (as in C18 call_orders)
+
+        def call(z, a):
+            U = state["U"]
+            return tuple(int(U.prev_fast_len(n)) for n in a) + tuple(int(U.next_fast_len(n)) for n in a)
+
+        def same(x, y):
+            return x == y
+    elif name == "real_to_complex":
         def call(z, a):
             x = np.asarray(z.data).real.astype(np.float64 if z.data.dtype.itemsize > 8 or z.data.dtype == np.float64 else np.float32)
             x = np.stack([x] * 4, axis=1) if x.ndim == 1 else x
@@ -372,14 +406,26 @@ def run_threads(case, stt):
             return x == y
 
     try:
-        seq = [call(z, c["args"]) for z, c in zip(sigs, case["calls"])]
+        if name == "fast_len_calls":
+            seq = [tuple(O.prev_smooth(n) for n in c["args"]) + tuple(O.next_smooth(n) for n in c["args"]) for c in case["calls"]]
+        else:
+            seq = [call(z, c["args"]) for z, c in zip(sigs, case["calls"])]
     except Exception:
         stt.label("skip_reference_call_raises")
         return
     tasks = [dask.delayed(call, pure=False)(z, c["args"]) for z, c in zip(sigs, case["calls"])]
+    from concurrent.futures import ThreadPoolExecutor
+
     for rnd in range(3):
+        if fresh is not None:
+            fresh()
         with lib("%s as %d concurrent tasks (threaded scheduler)" % (name, len(tasks))):
-            outs = dask.compute(*tasks, scheduler="threads", num_workers=8)
+            if rnd < 2:
+                outs = dask.compute(*tasks, scheduler="threads", num_workers=8)
+            else:
+                # plain worker threads as well (Dask hands its workers a copy of the caller's context variables; a bare thread starts from scratch)
+                with ThreadPoolExecutor(8) as ex:
+                    outs = list(ex.map(lambda zc: call(zc[0], zc[1]["args"]), zip(sigs, case["calls"])))
         for i, (o, e) in enumerate(zip(outs, seq)):
             check(same(o, e), "{}: call {} of {} run as concurrent tasks under the threaded scheduler differs from the same call run alone (round {})",
                   name, i, len(tasks), rnd)
@@ -404,7 +450,7 @@ SUBS = [
 ]
 SUBS.append(Sub("threaded_delayed_calls", threads_case(), run_threads,
                 "4..8 calls of one operation (freq/time shift, coherent/incoherent dedispersion, Stokes/basis conversion, ufunc expression, snippet, "
-                "stft, channel labels read 200 times) on equally shaped NumPy signals of 3001..8192 samples (labels: 256..4096 channels), run as "
+                "stft, real_to_complex, Phase string rendering, next/prev_fast_len with one length far beyond any seen before, channel labels read 200 times) on equally shaped NumPy signals of 3001..8192 samples (labels: 256..4096 channels), run as "
                 "dask.delayed tasks of one graph under the threaded scheduler with 8 workers, 3 rounds, each result bit-identical to the same call "
-                "run alone; all non-trivial", quick=60, thorough=800, pieces_quick=3, pieces_thorough=8))
+                "run alone (third round: plain worker threads instead of Dask's; fast-length calls start from a fresh module state); all non-trivial", quick=60, thorough=800, pieces_quick=3, pieces_thorough=8))
 SUBS[1].in_parent = True  # the multiprocess scheduler cannot be started from a daemonic pool worker
